@@ -436,6 +436,9 @@ void skew_wall(int64_t delta) {
 uint64_t next_seq() {
 	return ++S.seq;
 }
+bool deterministic_mode() {
+	return !S.active || S.cfg.policy == POL_NONPREEMPT;
+}
 uint64_t rnd(uint64_t n) {
 	return rnd_n(n);
 }
